@@ -2,10 +2,10 @@
    map to OCaml natives; N, Z, positive, nat stay as extracted inductives. *)
 Require Import ExtrOcamlBasic.
 Require Import SQV.Model.Str SQV.Model.Escape SQV.Model.Token SQV.Generated.Alpha
-  SQV.Model.Literal SQV.Model.LitPos SQV.Spec.EngLex SQV.Spec.LitOracle.
+  SQV.Model.Literal SQV.Model.LitPos SQV.Spec.EngLex SQV.Spec.LitOracle SQV.Spec.EngTok.
 Extraction Language OCaml.
 Set Extraction KeepSingleton.
 Extraction "model.ml"
   escape_string unescape_string dec_of_Z
   tokenize unquote text is_alpha_rust
-  lit_render lit_template decode_strings_at decode_bytes_at eng_lex_ident iden_prepare quote_char.
+  lit_render lit_template decode_strings_at decode_bytes_at eng_lex_ident iden_prepare quote_char eng_tokens idents_of.
